@@ -397,8 +397,8 @@ WRITERS_OK = ('PieceBoard::initial', 'PieceBoard::new', 'PieceBoard::move_piece'
 
 def check_writers(ctx, prog):
     ctx.rule('C10.1', 'fields of PieceBoardState are written (assigned, constructed, or mutably borrowed) only in '
-                      'PieceBoard::{initial,new,move_piece,remove_trapped_pieces,take_action}, the derived Clone, and private helpers that lend '
-                      'mutable references to the fields and are called from those functions only; no reachable '
+                      'PieceBoard::{initial,new,move_piece,remove_trapped_pieces,take_action}, the derived Clone, and private helpers (lending '
+                      'mutable references to the fields or updating them) that are called from those functions only; no reachable '
                       'function returns a mutable reference to a state type')
     n_sites = 0
     sites = []        # (function, kind, at)
@@ -427,8 +427,9 @@ def check_writers(ctx, prog):
     def is_writer(name):
         f = prog.fns[name]
         return any(name.endswith(w) for w in WRITERS_OK) or bool(f.get('derived') and (f.get('trait_impl') or '').endswith('Clone'))
-    # private lenders: functions that only take `&mut field` (and hand the references back); every caller must be a writer (or
-    # another lender), and the function must not be public
+    # private helpers of the writers: functions that lend `&mut field` or update fields on a writer's behalf; every caller must be a
+    # writer (or another such helper) and the function must not be public - their effect is part of the writers' results, which
+    # the update rules decide bit by bit
     callers = {}
     for name in prog.fns:
         for _bi, t in prog.calls(name):
@@ -441,7 +442,7 @@ def check_writers(ctx, prog):
         if name in lender_cache:
             return lender_cache[name]
         f = prog.fns[name]
-        ok = depth < 4 and all(k == 'borrow-mut' for (n_, k, _a) in sites if n_ == name) and 'Public' not in str(f.get('vis')) \
+        ok = depth < 4 and 'Public' not in str(f.get('vis')) \
             and bool(callers.get(name)) and all(is_writer(c) or is_lender(c, depth + 1) for c in callers.get(name, ()))
         lender_cache[name] = ok
         return ok
